@@ -223,12 +223,25 @@ def oracle_dist(c):
             if R >= 0 and res["pq"] > math.pi * R * (1 + 1e-12):
                 return f"{name}: d={res['pq']} exceeds half the circumference {math.pi * R}"
         else:
-            if (p == q) != (res["pq"] == 0.0):
+            diffs = [abs(Fraction(p[0]) - Fraction(q[0])), abs(Fraction(p[1]) - Fraction(q[1]))]
+            underflow = all(d == 0 or d < Fraction(1, 10 ** 150) for d in diffs)   # squares vanish in floats
+            if (p == q) != (res["pq"] == 0.0) and not (p != q and underflow):
                 return f"{name}: d(p,q)={res['pq']} for p={p} q={q} (zero iff coincident)"
     if all(k in res for k in ("pr", "pq", "qr")):
         if res["pr"] > res["pq"] + res["qr"] + tol:
             return (f"{name}: triangle inequality fails: d(p,r)={res['pr']} > d(p,q)+d(q,r)="
                     f"{res['pq'] + res['qr']} p={p} q={q} r={r_}")
+    if is_gc and "pq" in res and math.isfinite(R):
+        # the great-circle distance itself: R times the angle between the two unit vectors,
+        # computed another way (atan2 of |u x v| and u . v)
+        def unit(pt):
+            lo, la = math.radians(pt[0]), math.radians(pt[1])
+            return (math.cos(la) * math.cos(lo), math.cos(la) * math.sin(lo), math.sin(la))
+        u, v = unit(p), unit(q)
+        cr = (u[1] * v[2] - u[2] * v[1], u[2] * v[0] - u[0] * v[2], u[0] * v[1] - u[1] * v[0])
+        ang = math.atan2(math.sqrt(sum(t * t for t in cr)), sum(a * b for a, b in zip(u, v)))
+        if not close(res["pq"], R * ang, rel=1e-9, abs_=tol):
+            return f"{name}: d(p,q)={res['pq']} but R * angle(p, q) = {R * ang} for p={p} q={q} R={R}"
     if not is_gc and "pq" in res:
         dx, dy = Fraction(p[0]) - Fraction(q[0]), Fraction(p[1]) - Fraction(q[1])
         exp = float(abs(dx) + abs(dy)) if name == "manhattan_distance" else math.sqrt(float(dx * dx + dy * dy))
@@ -393,7 +406,7 @@ def compare_string(r, c, reply, reply_split):
         elif t in ("nan", "inf", "-inf"):
             if not close(float(v), float(t)):
                 r.disagree("get_distance", c, repr(v), reply)
-        elif not close(float(v), float(Fraction(t)), rel=1e-12, abs_=0.0):
+        elif float(v) != float(Fraction(t)):      # the model rounds like IEEE binary64: exact agreement
             r.disagree("get_distance", c, repr(v), reply)
     else:
         r.disagree("get_distance", c, f"{st}: {v!r}", reply)
@@ -432,8 +445,10 @@ def gen_radius(rng, cx, cy, big=24):
     if k < 0.65:
         v = rng.randrange(1, 8 * big) / 8 * min(abs(cx), abs(cy))
         return v if rng.random() < 0.7 else repr(v)
-    if k < 0.8:       # exact multiples of a cell size (the floor boundary)
-        c_ = rng.choice([cx, cy]) or 1
+    if k < 0.8:       # exact multiples of a cell size (the floor boundary); dyadic cells only, so that
+        # float(str(radius)) / cellsize is exact and the real code sits exactly on the boundary too
+        cand = [c for c in (cx, cy) if c != 0 and float(c * 64).is_integer()] or [1]
+        c_ = rng.choice(cand)
         return rng.randrange(1, max(2, int(lim / abs(c_)) + 1)) * c_
     u = rng.choice(RAD_UNITS)
     f = float(DOC_UNITS.get(u.strip().lower(), 1))
@@ -667,54 +682,28 @@ def kernel_requests(c):
         return [f"ellipse hw={c['hw']} hh={c['hh']}"]
     cx, cy = tok(c["cx"]), tok(c["cy"])
     if c["kind"] == "circle":
-        return [f"circle cx={cx} cy={cy} r={cps(rad_str(c['r']))}", f"half cx={cx} cy={cy} r={cps(rad_str(c['r']))}"]
-    return [f"annulus cx={cx} cy={cy} ro={cps(rad_str(c['ro']))} ri={cps(rad_str(c['ri']))}",
-            f"half cx={cx} cy={cy} r={cps(rad_str(c['ro']))}", f"half cx={cx} cy={cy} r={cps(rad_str(c['ri']))}"]
-
-
-def near_floor_boundary(half_reply):
-    """the model's exact quotient r/cellsize is (nearly) an integer: the float rounding of the real
-    `float(number) * UNITS[unit] / cellsize` decides the half width -- not comparable"""
-    if half_reply in ("-", ""):
-        return False
-    for t in half_reply.split(","):
-        q = Fraction(t)
-        if abs(q - round(q)) < Fraction(1, 10 ** 9) * max(1, abs(q)):
-            if q != round(q):
-                return True
-            return "int"       # exactly an integer in the model: floats may land just below
-    return False
+        return [f"circle cx={cx} cy={cy} r={cps(rad_str(c['r']))}"]
+    return [f"annulus cx={cx} cy={cy} ro={cps(rad_str(c['ro']))} ri={cps(rad_str(c['ri']))}"]
 
 
 def compare_kernel(r, c, replies):
+    """exact comparison: the model performs `float(number)`, `* UNITS[unit]` and `/ cellsize` with
+    IEEE binary64 rounding, so even radii that are exact multiples of a cell size must agree"""
     st, k = call_kernel(c)
     rep = replies[0]
     strs = [rad_str(c[key]) for key in ("r", "ro", "ri") if key in c]
     if not all(s.isascii() for s in strs):
         return
-    nb = [near_floor_boundary(h) for h in replies[1:]]
     if rep.startswith("err:"):
         kind = rep[4:]
-        if st == "ok" or (kind in ("ValueError", "OverflowError", "ZeroDivisionError") and st != kind):
-            if any(nb):
-                r.tag("kernel:float-floor-boundary")
-                return
-            r.disagree("kernel-vs-real", c, f"{st}: {str(k)[:80]}", rep)
-        elif kind not in ("ValueError", "OverflowError", "ZeroDivisionError"):
+        if st == "ok" or kind not in ("ValueError", "OverflowError", "ZeroDivisionError") or st != kind:
             r.disagree("kernel-vs-real", c, f"{st}: {str(k)[:80]}", rep)
         return
     if st != "ok":
-        if any(nb):
-            r.tag("kernel:float-floor-boundary")
-            return
         r.disagree("kernel-vs-real", c, f"{st}: {str(k)[:80]}", rep[:120])
         return
     mg = np.array(parse_grid(rep)) if not rep.endswith(":") else np.zeros((0, 0))
     if mg.shape != k.shape or not np.array_equal(mg, k):
-        if any(nb):
-            # at an exact multiple the float product/quotient may fall on either side of the integer
-            r.tag("kernel:float-floor-boundary")
-            return
         r.disagree("kernel-vs-real", c, f"shape {k.shape} {k.tolist() if k.size < 60 else ''}",
                    f"shape {mg.shape} {mg.tolist() if mg.size < 60 else ''}")
 
@@ -791,7 +780,7 @@ def compare_cellsize(r, c, reply):
         r.disagree("calc_cellsize", c, f"{st}: {out}", reply)
         return
     mx, my = (float(Fraction(t)) for t in reply.split(","))
-    if not (close(out[0], mx, rel=1e-12, abs_=0) and close(out[1], my, rel=1e-12, abs_=0)):
+    if not (out[0] == mx and out[1] == my):
         r.disagree("calc_cellsize", c, repr(out), reply)
 
 
@@ -806,7 +795,38 @@ def cellsize_request(c):
 # ------------------------------------------------------------------------------------------------
 # the check
 # ------------------------------------------------------------------------------------------------
-ORACLES = {"dist": oracle_dist, "string": oracle_string, "circle": oracle_kernel, "annulus": oracle_kernel,
+def gen_round_case(rng):
+    """a rational to be rounded to binary64: ordinary quotients, exact ties, subnormals, huge / tiny"""
+    k = rng.random()
+    if k < 0.4:
+        n, d = rng.randrange(-10 ** 6, 10 ** 6), rng.randrange(1, 10 ** 6)
+    elif k < 0.6:     # a tie between two neighbouring doubles, and its close neighbours
+        m = rng.randrange(2 ** 52, 2 ** 53)
+        e = rng.randrange(-60, 60)
+        n, d = (2 * m + 1) * 10 ** 30 + rng.choice([0, 0, 1, -1]), 2 * 10 ** 30
+        n, d = (n * 2 ** e, d) if e >= 0 else (n, d * 2 ** (-e))
+    elif k < 0.75:    # subnormal range
+        n, d = rng.randrange(1, 2 ** 60), 2 ** rng.randrange(1075, 1135)
+        if rng.random() < 0.3:
+            n, d = (2 * rng.randrange(1, 2 ** 20) + 1), 2 ** 1075
+    elif k < 0.9:
+        n, d = rng.randrange(1, 10 ** 18) * 10 ** rng.randrange(0, 200), rng.randrange(1, 10 ** 18) * 10 ** rng.randrange(0, 200)
+    else:
+        n, d = rng.randrange(-10 ** 30, 10 ** 30), 10 ** rng.randrange(0, 40)
+    return dict(kind="round", sub="gen", n=str(n), d=str(d))
+
+
+def compare_round(r, c, reply):
+    exp = Fraction(int(c["n"]), int(c["d"]))
+    try:
+        f = float(exp)             # correctly rounded by CPython
+    except OverflowError:
+        return
+    if reply != tok(Fraction(f)):
+        r.disagree("roundF64-vs-python", c, tok(Fraction(f)), reply)
+
+
+ORACLES = {"round": lambda c: None, "dist": oracle_dist, "string": oracle_string, "circle": oracle_kernel, "annulus": oracle_kernel,
            "ellipse": oracle_kernel, "cellsize": oracle_cellsize}
 
 
@@ -830,8 +850,8 @@ def corpus_cases(r):
 
 
 def counts(tier, scale=1):
-    base = {"quick": dict(dist=6000, wild=1000, string=15000, kernel=3000, malformed=600, cellsize=600),
-            "thorough": dict(dist=60000, wild=8000, string=150000, kernel=25000, malformed=5000, cellsize=5000)}[tier]
+    base = {"quick": dict(dist=6000, wild=1000, string=15000, kernel=3000, malformed=600, cellsize=600, round=1500),
+            "thorough": dict(dist=150000, wild=20000, string=400000, kernel=60000, malformed=12000, cellsize=10000, round=30000)}[tier]
     return {k: int(v * scale) for k, v in base.items()}
 
 
@@ -883,6 +903,8 @@ def run(r, scale=1, oracle_only=False):
         cases.append(gen_kernel_case(rng, "malformed"))
     for _ in range(n["cellsize"]):
         cases.append(gen_cellsize_case(rng))
+    for _ in range(n["round"]):
+        cases.append(gen_round_case(rng))
     if r.tier == "thorough" and not oracle_only and scale == 1:
         exhaustive_small(r, cases)
         r.exhaustive = ("all _ellipse_kernel half widths 0..12 x 0..12; circle_kernel on 5x5 cell sizes x 11 radii; "
@@ -923,6 +945,9 @@ def run(r, scale=1, oracle_only=False):
             for k_, line in enumerate(kernel_requests(c)):
                 requests.append(line)
                 owners.append((idx, "kernel", k_))
+        elif kind == "round":
+            requests.append(f"round q={c['n']}/{c['d']}")
+            owners.append((idx, "round", 0))
         else:
             requests.append(cellsize_request(c))
             owners.append((idx, "cellsize", 0))
@@ -944,6 +969,8 @@ def run(r, scale=1, oracle_only=False):
                 compare_string(r, c, lst[0][2], lst[1][2])
             elif what == "kernel":
                 compare_kernel(r, c, [x[2] for x in lst])
+            elif what == "round":
+                compare_round(r, c, lst[0][2])
             else:
                 compare_cellsize(r, c, lst[0][2])
         except Exception as ex:
